@@ -7,7 +7,7 @@
 #[derive(Clone, Copy)]
 pub struct Hash { _p: u8 }
 #[derive(Clone, Copy)]
-pub struct BlockHeader { pub height: u64, pub id: Ghost<int> }
+pub struct BlockHeader { pub height: u64, pub output_mmr_size: u64, pub id: Ghost<int> }
 #[verifier::external_body]
 pub struct Batch { _p: u8 }
 #[verifier::external_body]
